@@ -27,6 +27,7 @@
    standard given as a frequency table off the calibration grid).
 """
 import itertools
+import math
 import os
 import re
 from fractions import Fraction
@@ -264,6 +265,9 @@ def emit(s):
         elif op[0] == "terms":
             cl.append("terms")
             recs.append({"op": "terms", "model": False})
+        elif op[0] == "pget":
+            cl.append("pget %d" % op[1])
+            recs.append({"op": "pget", "slot": op[1], "model": False})
         elif op[0] == "apply":
             Md = s.terms.measure(op[1])
             if Md is None:
@@ -366,7 +370,7 @@ def evaluate(ctx, s, recs, cout, mout, stats, use_model):
     s.last_np = None
     for i, rec in enumerate(recs):
         cd = parse_kv(cout[i])
-        md = parse_kv(mout[i]) if (use_model and rec["op"] not in ("terms",)) else None
+        md = parse_kv(mout[i]) if (use_model and rec["op"] not in ("terms", "pget")) else None
         op = rec["op"]
 
         def bad(kind, what):
@@ -554,6 +558,15 @@ def evaluate(ctx, s, recs, cout, mout, stats, use_model):
                     ctx.count(None)
             else:
                 ctx.count(None)
+            if getattr(s, "trl_truth", False) and len(accepted) == 3 and not deficient:
+                # a complete through / unknown reflect / unknown line set on a type with the analytic TRL path: it determines
+                # the error terms and both parameters (the guesses select the root), in whatever order it was entered
+                verdict = "solve"
+                stats["trl_truth_required"] += 1
+                ctx.count(("trl-truth", s.ty, s.sid))
+                if not ok:
+                    bad("determining", "a complete through / reflect / line set (order %s) was not solved (errno %s)"
+                        % (s.trl_order, cd["errno"]))
             final["verdict"] = verdict
             rec["verdict"] = verdict
             s.last_verdict = verdict
@@ -623,6 +636,20 @@ def evaluate(ctx, s, recs, cout, mout, stats, use_model):
                 if s.slotf and getattr(s, "n_ok", 0) >= 2:
                     stats["vector_resolve_terms"] += 1
                     ctx.count(("vector-resolve", s.ty, s.r, s.c, s.sid, i))
+            continue
+        if op == "pget":
+            if getattr(s, "last_verdict", None) == "solve" and s.last_ok:
+                p = cout[i].split()
+                k, nf = int(p[1]), int(p[2])
+                vals = [float(x) for x in p[3:]]
+                want = s.slots[k].to_c()
+                worst = max(abs(complex(vals[2 * f], vals[2 * f + 1]) - want) for f in range(nf))
+                stats["worst_parameter_error"] = max(stats["worst_parameter_error"], worst)
+                if not worst <= TOL:
+                    bad("determining", "solved unknown parameter (slot %d) reads back as %s, true value %s (difference %.3g)%s"
+                        % (k, complex(vals[0], vals[1]), want, worst,
+                           ", standards added in the order " + s.trl_order if getattr(s, "trl_truth", False) else ""))
+                stats["parameters_checked"] += 1
             continue
         if op == "apply":
             had_cal = False
@@ -1178,6 +1205,82 @@ def gen_trl(ctx):
     return out
 
 
+def gen_trl_truth(ctx):
+    """Through / reflect / line calibrations that take the analytic TRL path (2x2 T8, U8, TE10, UE10; exactly a through, a
+    reflect with ONE unknown parameter on both ports - entered as a double reflect or as a line with explicit zeros -, a line
+    with an unknown transmission; no error modelling), in ALL SIX orders of the three standards, with random true values and
+    initial guesses 5..25 degrees / 3..10 % away from them.  Solve after every addition (EDOM while incomplete), then the saved
+    error terms, both solved parameters and an independent corrected device are compared with the truth: the property says every
+    determining set solves in whatever order it was accumulated."""
+    import cmath
+    import itertools
+    import random
+    rng = ctx.rng
+    quick = ctx.tier == "quick"
+    out = []
+    sid = 450000
+    for ty in ("T8", "U8", "TE10", "UE10"):
+        for rep in range(1 if quick else 4):
+            seed = rng.getrandbits(48)
+            for oi, order in enumerate(itertools.permutations("TRL")):
+                prng = random.Random(seed)
+                s = Scenario(ty, 2, 2, 1 + rep % 2, prng, sid)
+                sid += 1
+                s.merr = False
+                s.exact = False
+                s.group = ("trl-truth", ty, seed)
+                s.trl_truth = True
+                s.trl_order = "".join(order)
+                term = {i: QI(Fraction(1, 10), Fraction(-1, 5)) for i in range(2)}
+
+                def near(v, prng=prng):
+                    # a guess off by 5..25 degrees and 3..10 % (rounded to rationals)
+                    a = math.radians(prng.choice([-1, 1]) * prng.uniform(5, 25))
+                    g = v.to_c() * cmath.rect(1 + prng.choice([-1, 1]) * prng.uniform(0.03, 0.10), a)
+                    return QI(Fraction(round(g.real * 1000), 1000), Fraction(round(g.imag * 1000), 1000))
+                rv = QI(Fraction(prng.randint(-95, -70), 100), Fraction(prng.randint(-30, 30), 100))
+                ang = math.radians(prng.uniform(40, 140)) * prng.choice([-1, 1])
+                lc = cmath.rect(prng.uniform(0.85, 0.98), ang)
+                lv = QI(Fraction(round(lc.real * 1000), 1000), Fraction(round(lc.imag * 1000), 1000))
+                # extra parameters first, sometimes: the unknown index of the reflect / line is then not 0 / 1
+                for _ in range(prng.choice([0, 0, 1, 3])):
+                    s.new_slot(QI(Fraction(prng.randint(1, 9), 11), Fraction(prng.randint(1, 9), 13)))
+                gr = s.new_slot(near(rv))
+                gl = s.new_slot(near(lv))
+                z, one = (0, ZERO), (1, ONE)
+                # the unknown parameters are created in the order in which their standards are added
+                made = {}
+                stds = {}
+                for ch in order:
+                    if ch == "R":
+                        made["R"] = s.new_slot(rv, kind="unknown", guess=gr)
+                    elif ch == "L":
+                        made["L"] = s.new_slot(lv, kind="unknown", guess=gl)
+                ur, ul = made["R"], made["L"]
+                stds["T"] = sc.Standard("th", [1, 2], [[z, one], [one, z]], "T")
+                if rep % 2 == 0:
+                    stds["R"] = sc.Standard("r2", [1, 2], [[(ur, rv), z], [z, (ur, rv)]], "R/r2")
+                else:
+                    stds["R"] = sc.Standard("ln", [1, 2], [[(ur, rv), z], [z, (ur, rv)]], "R/ln")
+                stds["L"] = sc.Standard("ln", [1, 2], [[z, (ul, lv)], [(ul, lv), z]], "L")
+                for st in stds.values():
+                    st.unknown = True
+                    st.term = term
+                    st.abbrev_rows = st.abbrev_cols = False
+                for ch in order:
+                    s.ops.append(("add", stds[ch]))
+                    s.ops.append(("solve",))
+                s.ops.append(("terms",))
+                s.ops.append(("pget", ur))
+                s.ops.append(("pget", ul))
+                Sd = [[QI(Fraction(prng.randint(-6, 6), 10), Fraction(prng.randint(-6, 6), 10)) for _ in range(2)] for _ in range(2)]
+                s.ops.append(("apply", Sd))
+                s.ops.append(("solve",))
+                s.ops.append(("pget", ur))
+                out.append(s)
+    return out
+
+
 def gen_correlated(ctx):
     """Auto-calibrations with plain unknown AND correlated parameters, solved after every add, built so that
     the history passes through states that are exactly one equation short with a correlated parameter present
@@ -1624,9 +1727,10 @@ def run(ctx):
     stats.update({k: 0 for k in ("numeric_points", "numeric_insufficient", "numeric_singular", "numeric_ok",
                                  "numeric_singular_but_library_solved", "numeric_terms_exact", "numeric_terms_vs_library")})
     stats["numeric_worst_term_error"] = 0.0
-    stats.update({"square_scaled_required": 0, "vector_resolve_terms": 0, "short_system_total_passes": 0})
+    stats.update({"square_scaled_required": 0, "vector_resolve_terms": 0, "short_system_total_passes": 0,
+                  "trl_truth_required": 0, "parameters_checked": 0, "worst_parameter_error": 0.0})
     scen = gen_scenarios(ctx) + gen_special(ctx) + gen_trl(ctx) + gen_correlated(ctx) + gen_writeback(ctx, exe)
-    scen += gen_minimal_scaled(ctx) + gen_resolve_vector(ctx) + gen_column_deficient(ctx)
+    scen += gen_minimal_scaled(ctx) + gen_resolve_vector(ctx) + gen_column_deficient(ctx) + gen_trl_truth(ctx)
     if drv is not None:
         scen += gen_argcheck(ctx, drv)
     ctx.log("%d scenarios" % len(scen))
@@ -1688,7 +1792,7 @@ def run(ctx):
             mo = []
             k = 0
             for rec in recs:
-                if rec["op"] == "terms":
+                if rec["op"] in ("terms", "pget"):
                     mo.append("")
                 else:
                     mo.append(mo_raw[k] if k < len(mo_raw) else "")
@@ -1780,6 +1884,10 @@ def run(ctx):
                    "with table standards compared with the true terms" % (stats["square_scaled_required"], stats["vector_resolve_terms"]))
     ctx.obligation("tie:coverage (unknown parameter, a column short of equations while the total count passes: EDOM required, DD90)",
                    stats["short_system_total_passes"] >= 6, "%d such solves" % stats["short_system_total_passes"])
+    ctx.obligation("tie:coverage (through / reflect / line in all six orders: success, terms, parameters and device against the truth)",
+                   stats["trl_truth_required"] >= 24 and stats["parameters_checked"] >= 48,
+                   "%d required TRL successes, %d parameter values read back (worst %.2g)"
+                   % (stats["trl_truth_required"], stats["parameters_checked"], stats["worst_parameter_error"]))
     searched = "%d solve calls in %d histories against the library, the model and the exact-rank oracle" % (stats["solves"], len(scen))
     if not ctx.violations:
         for name, ok, detail in list(ctx.obligations):
